@@ -1,6 +1,7 @@
 import StepModel.ComplexMatch
 import StepModel.ComplexBuild
 import StepModel.ComplexSafeTop
+import StepModel.ComplexInit
 /-! Line-protocol driver for the complex-entity models (same request lines as harness/h_complex.cc where they overlap).
 Names are numbers (alphabetical rank of the entity name, assigned by the caller).
 
@@ -10,6 +11,8 @@ Names are numbers (alphabetical rank of the entity name, assigned by the caller)
     q n n ..                   -> R 0 | R 1 | R crash:<site> | R fuel      Match.supports on the parts in this order
     eval n n ..                -> E 0 | E 1         Complex.evalB (plain meaning of the current collect)
     n n n ..                   -> N n n ..          the EntNode list the constructor builds
+    rs n n ..                  -> N n n .. | R crash:<site>   EntNode::sort on the list as it is after renaming
+    consts                     -> K nullsafe=<0|1> sortns=<0|1>   regenerated switches the model runs with
     schema <k> {name abs k s.. m t.. expr|-}*       -> S k   set the schema (expr prefix code: e:<n> | o<k> .. | a . . | x . .)
     collect                    -> T C[ ... ] | T none        Build.collectOf of the schema
     legal n n ..               -> L 0 | L 1         Spec.Legal of the schema
@@ -163,7 +166,7 @@ structure DState where
 def crashName : Crash → String
   | .firstCandidateNull => "firstCandidateNull" | .unmarkPastEnd => "unmarkPastEnd" | .orChoiceNull => "orChoiceNull"
   | .castSimple => "castSimple" | .emptyList => "emptyList" | .badHead => "badHead"
-  | .comboEmpty => "comboEmpty" | .comboOdd => "comboOdd"
+  | .comboEmpty => "comboEmpty" | .comboOdd => "comboOdd" | .sortNullChunk => "sortNullChunk"
 
 def handle (s : DState) (line : String) : DState × String :=
   match tokens line with
@@ -183,6 +186,15 @@ def handle (s : DState) (line : String) : DState × String :=
          let known := match e.expr with | none => [] | some _ => e.name :: leavesL b
          e.subs.filter (fun n => !known.contains n) == e.implicit))
     (s, if ok then "I 1" else "I 0")
+  | ["consts"] => (s, s!"K nullsafe={if StepModel.Generated.tryNextNullSafe then 1 else 0} sortns={if StepModel.Generated.sortNonStrict then 1 else 0}")
+  | "rs" :: rest =>
+    match nats rest with
+    | some (n :: ns) =>
+      match sortNodes (n :: ns) with
+      | .ok l => (s, "N" ++ String.join (l.map (fun x => s!" {x}")))
+      | .crash c => (s, "R crash:" ++ crashName c)
+      | .outOfFuel => (s, "R fuel")
+    | _ => (s, "bad-op")
   | ["forest"] => (s, if forestOK s.schema then "F 1" else "F 0")
   | ["wf"] => (s, if s.collect.all headWF then "W 1" else "W 0")
   | "mult" :: rest =>
